@@ -212,6 +212,14 @@ def _assignment(ctx, model):
             out[name] = float(core._q(val))
         except Unsupported:
             out[name] = 0.0
+    # an angle input is only constrained through its (cos, sin) atoms: read the angle off them
+    for vid, (v, unit, c, s) in ctx.angles.items():
+        try:
+            cv = float(core._q(model.eval(c, model_completion=True)))
+            sv = float(core._q(model.eval(s, model_completion=True)))
+            out[str(v)] = math.atan2(sv, cv) / float(unit)
+        except Unsupported:
+            pass
     return out
 
 
